@@ -19,7 +19,7 @@ given magnitudes (floating point).
 """
 from __future__ import annotations
 
-from ..lib import (is_ext_call, strip_casts, walk, show, select_arms, list_elements, resimplify,
+from ..lib import (cast_targets, is_ext_call, strip_casts, walk, show, select_arms, list_elements, resimplify,
                    check_efficient_cond, rec_fields, leaves, path_str, ext_name, evaluator, Decider)
 from ..terms import T, is_const, cval, const
 from ..model import AnalysisError
@@ -87,6 +87,7 @@ def parse_predicate(p):
       a, b = b, a
     if o in ('>', '>='):
       out['e_cmp'] = strip_casts(a)
+      out['e_casts'] = cast_targets(a)
       out['thr'] = strip_casts(b)
       out['strict'] = (o == '>')
   return out
@@ -174,6 +175,11 @@ def check_store(ctx, fi, ev, tag, E, roots, vtag, preds):
   if pp['e_nan'] is not pp['e_cmp']:
     ok = False
     why.append('isnan and the comparison look at different error values')
+  widened = [dt for dt in pp.get('e_casts', []) if dt.op == 'ext' and dt.args[0].split('.')[-1] not in ('float32',)]
+  if widened:
+    ok = False
+    why.append(f'the error is cast to {widened[0].args[0].split(".")[-1]} before the comparison: the non-refresh sentinel equals the threshold only in the '
+               'dtype it was created in (float32(thr) widened is < thr for most thresholds), so stale candidates pass the gate')
   ctx.ob('C03.G2', fn, f'{tag}: predicate', ok, '; '.join(why), ctx.loc(fi),
          sample='isnan(e) | e >= inverse_failure_threshold')
   # arms
@@ -303,6 +309,13 @@ def denominators(ctx):
         ctx.ob('C03.G5', fi.short, f'denominator[{graft}] {show(den, maxdepth=2)[:60]}', ok,
                f'division by `{show(den, maxdepth=4)[:120]}` is not guarded (needs nonneg + positive epsilon, maximum(1, .) or a positive constant)',
                ctx.loc(fi), sample=f'guarded denominator `{show(den, maxdepth=2)[:60]}`')
+      if is_ext_call(x, 'jax.lax.rsqrt', 'jax.numpy.reciprocal') and x.args[1]:
+        den = x.args[1][0]
+        ok = guarded(den)
+        n += 1
+        ctx.ob('C03.G5', fi.short, f'reciprocal[{graft}] of {show(den, maxdepth=2)[:60]}', ok,
+               f'{ext_name(x).split(".")[-1]} of `{show(den, maxdepth=4)[:120]}` is not guarded (needs nonneg + an epsilon that is positive IN FLOAT32, maximum(1, .) or a positive constant)',
+               ctx.loc(fi), sample=f'guarded reciprocal `{show(den, maxdepth=2)[:60]}`')
   ctx.need('C03.G5', n, 4, 'divisions in _transform_grad')
 
 
@@ -329,11 +342,21 @@ def guarded(den):
 
 
 def nonneg(x):
-  return is_ext_call(x, 'jax.numpy.linalg.norm', 'jax.numpy.sqrt', 'jax.numpy.abs', 'jax.numpy.square')
+  x = strip_casts(x)
+  if is_ext_call(x, 'jax.numpy.linalg.norm', 'jax.numpy.sqrt', 'jax.numpy.abs', 'jax.numpy.square'):
+    return True
+  if is_ext_call(x, 'jax.numpy.sum', 'jax.numpy.mean', 'jax.numpy.max') and x.args[1]:
+    return nonneg(x.args[1][0])
+  if x.op == 'bin' and x.args[0] == '**' and is_const(x.args[2], 2):
+    return True
+  return False
+
+
+_F32_TINY = 1.1754944e-38     # smallest positive normal float32: a smaller guard constant is 0 (or subnormal) next to float32 data
 
 
 def positive_eps(y):
-  if is_const(y) and isinstance(cval(y), float) and cval(y) > 0:
+  if is_const(y) and isinstance(cval(y), float) and cval(y) >= _F32_TINY:
     return True
   if y.op == 'sym' and 'epsilon' in str(y.args[-1]).lower():
     return True
